@@ -91,6 +91,11 @@ def gen_slice_items(r, info, nslots=None):
 def _gen_slice_items(r, info):
     n, depth, keys = info["length"], info["depth"], info["keys"]
     inner = info.get("inner", 3)       # size of the lists one level down (so that "exactly the size" is hit often)
+    if depth >= 2 and r.random() < 0.06:
+        # a[start:stop, i] with i at and around the ends of the inner lists
+        a, b = gen_range(r, n)
+        return [{"k": "range", "start": a, "stop": b, "step": r.choice([None, None, 1, 2, -1])},
+                {"k": "at", "i": r.choice([inner, inner - 1, -inner, -inner - 1, 0, inner + 1])}]
     items = []
     nitems = r.choice([1, 1, 1, 2, 2, 3])
     used_ellipsis = False
@@ -105,7 +110,10 @@ def _gen_slice_items(r, info):
         if adv_len is not None and (0.6 <= x < 0.94 and not (0.8 <= x < 0.88)):
             x = 0.3
         if x < 0.2:
-            items.append({"k": "at", "i": gen_index(r, cur_n if level == 0 else inner)})
+            i = gen_index(r, cur_n if level == 0 else inner)
+            if level > 0 and r.random() < 0.2:
+                i = r.choice([inner, inner, -inner - 1])       # exactly one past the end of the inner lists
+            items.append({"k": "at", "i": i})
         elif x < 0.5:
             a, b = gen_range(r, cur_n if level == 0 else inner)
             step = r.choice([None, None, 1, 2, -1, -2, 3])
